@@ -45,6 +45,7 @@ type EntryResult struct {
 	Samples     []map[string]any              `json:"samples"`
 	Intercepts  map[string]int                `json:"intercepts"`
 	Functions   []string                      `json:"functions_encoded,omitempty"`
+	Transcript  []string                      `json:"transcript,omitempty"`
 }
 
 type Output struct {
@@ -237,7 +238,7 @@ func main() {
 			Complete: ex.Complete(), StopReason: ex.StopReason(), Queries: ex.Solver.Queries, Sat: ex.Solver.Sat,
 			Unsat: ex.Solver.Unsat, Unknown: ex.Solver.Unknown, SolverErrs: ex.Solver.Errors,
 			SolverSec: ex.Solver.Time.Seconds(), MaxQuerySec: ex.Solver.MaxQuery.Seconds(),
-			WallSec: time.Since(start).Seconds(), Steps: ex.Steps, Samples: ex.Samples, Intercepts: ex.Intercepts}
+			WallSec: time.Since(start).Seconds(), Steps: ex.Steps, Samples: ex.Samples, Intercepts: ex.Intercepts, Transcript: ex.Transcript}
 		if res.Violations == nil {
 			res.Violations = []*interp.Violation{}
 		}
